@@ -11,10 +11,14 @@ CONF = dict(
  '(factor 1 +- 1 ulp, peer - 1 vs reference incl. factors >= 2^53, interval 0/+-1, timeout 0/-1/half the interval +-1, drift 0/+-1, NaN, +-Inf); caps around '
  '2^53, 2^62, 2^63. Offsets over the whole int64 range incl. MinInt64/MaxInt64. sync.drift: SystemClock.Drift on (drift, interval) pairs. Non-trivial: a run '
  'that was refused at start-up, or a run with at least one source (so that a clamp, the cutoff or the midpoint can fire; which of them did is counted in the '
- 'tags); a drift case with positive drift and interval. distinct = distinct (kind, input)'),
+ 'tags); a drift case with positive drift and interval. sync.config: the six TOML settings clock_drift / reference_clock_impact / peer_clock_impact / '
+ 'peer_clock_cutoff / sync_timeout / sync_interval (present or omitted, sane values, 0, -0, NaN, +-Inf, sub-nanosecond and beyond-int64 values) written to a '
+ 'configuration file and passed through the real loadConfig, clockDrift and syncConfig of timeservice.go (the real service binary built with -tags verif, hook '
+ 'timeservice_verif.go, one process per case); every configuration the service accepts is then run by the real sync.Run with the real SystemClock.Drift (family '
+ 'config of sync.run). All sync.config cases count as non-trivial. distinct = distinct (kind, input)'),
     assumptions=['float64 arithmetic of Go on amd64 = IEEE-754 binary64 round-to-nearest-even without FMA contraction (Flocq BinarySingleNaN); int64(float64) = CVTTSD2SI '
  '(-2^63 when out of range); float64(int64) correctly rounded',
- 'impact factors are finite numbers (a NaN factor passes every start-up comparison of Run: boundary observation, the oracle leaves such configurations to the model comparison)',
+ 'NaN and infinite impact factors are inside the quantifier: the oracle demands that Run refuses every NaN factor (since /repo 6abb997 the code tests !(x > y)); the only non-finite setting Run admits is a peer factor +Inf (peer cap +Inf)',
  'the clause "both sides contribute => correction within the peer cap" needs the peer cap below 2^62 ns (146 years of allowed correction per round); '
  'C01_midpoint_refuted_beyond_2p62 is the witness that timemath.Midpoint wraps beyond that',
  'the two Drift(SyncInterval) calls of one start-up return the same value (a deterministic clock); SyncInterval and the drift are int64 (time.Duration)',
